@@ -247,6 +247,8 @@ P<N> from_vec(V const &v)
   return r;
 }
 
+// extents run over 0..E; the quantifier of the property is E = 4 (quick covers it completely), thorough adds E = 5
+ll E() { return vf::tier<ll>(4, 5); }
 std::uint64_t g_item = 0; // enumeration index for the partition filter
 bool my_item() { return vf::mine(g_item++); }
 
@@ -309,6 +311,18 @@ bool judge_visit(
   return false;
 }
 
+// fast path: nothing is formatted unless there is something to report
+template <std::size_t N, class Key, class What>
+bool judge_visit_lazy(std::vector<P<N>> const &got, std::vector<P<N>> const &want, bool runaway, bool order_judged, Key const &key, What const &what)
+{
+  if (!runaway && got == want)
+  {
+    VF_COUNT("visit/exact-row-major");
+    return true;
+  }
+  return judge_visit<N>(key(), what(), got, want, runaway, order_judged);
+}
+
 template <std::size_t N>
 void count_carries(std::vector<P<N>> const &seq)
 {
@@ -362,11 +376,11 @@ void offset_entry()
   if (!vf::entry_enabled(e))
     return;
   vf::set_entry(e);
-  for (P<N> const &s : box<N>(all<N>(0), all<N>(5)))
+  for (P<N> const &s : box<N>(all<N>(0), all<N>(E() + 1)))
   {
     if (!my_item())
       continue;
-    if (!vf::begin_case("size=%s all in-range positions; margin [-1,5] observed", show(s).c_str()))
+    if (!vf::begin_case("size=%s all in-range positions; margin [-1,%lld] observed", show(s).c_str(), E() + 1))
       continue;
     vf::sample_case(1);
     std::vector<P<N>> const ps = box<N>(all<N>(0), s);
@@ -406,7 +420,7 @@ void offset_entry()
         vf::violation(e + "/not-row-major", "mismatch", d + " want=" + std::to_string(k));
     }
     // observed: positions around the grid (unsigned wrap of -1): only sanitizer silence
-    for_box(all<N>(-1), all<N>(6), [&](P<N> const &p) {
+    for_box(all<N>(-1), all<N>(E() + 2), [&](P<N> const &p) {
       if (inside(p, all<N>(0), s))
         return;
       ST const o = fg::offset(to_pos<ST, N>(p), dim);
@@ -428,8 +442,13 @@ void observe_helpers(P<N> const &mn, P<N> const &sp, std::vector<P<N>> const &wa
 {
   fg::min<ST, N> const lmin{to_pos<ST, N>(mn)};
   fg::sup<ST, N> const lsup{to_pos<ST, N>(sp)};
-  std::string const ctx = "<" + inst<ST, N>() + "> min=" + show(mn) + " sup=" + show(sp);
   VF_COUNT("observed/helpers/calls");
+  struct lazy_ctx
+  {
+    P<N> const &mn, &sp;
+    operator std::string() const { return "<" + inst<ST, N>() + "> min=" + show(mn) + " sup=" + show(sp); }
+  } const lctx{mn, sp};
+#define ctx std::string(lctx)
   if (fg::min_less_sup(lmin, lsup) != !want.empty())
     surprise("min_less_sup" + ctx + " disagrees with component-wise min < sup");
   if constexpr (sizeof(ST) >= sizeof(int))
@@ -454,6 +473,7 @@ void observe_helpers(P<N> const &mn, P<N> const &sp, std::vector<P<N>> const &wa
     }
   if (!want.empty() && from_vec<N>(fg::next_position(to_pos<ST, N>(want.back()), lmin, lsup)) != endp)
     surprise("next_position" + ctx + " after the last position is not end_position");
+#undef ctx
 }
 
 template <class ST, std::size_t N>
@@ -463,7 +483,7 @@ void pos_range_entry()
   if (!vf::entry_enabled(e))
     return;
   vf::set_entry(e);
-  ll const M = (N == 3 && !vf::thorough()) ? 4 : 5;
+  ll const M = E() + 1;
   std::vector<P<N>> const corners = box<N>(all<N>(0), all<N>(M + 1));
   for (P<N> const &mn : corners)
   {
@@ -479,20 +499,25 @@ void pos_range_entry()
       vf::operands(enc(mn), enc(sp));
       std::vector<P<N>> const want = box<N>(mn, sp);
       char const *const kind = empty_kind(mn, sp);
-      vf::count(std::string("range/") + kind);
+      if (kind[0] == 'n')
+        VF_COUNT("range/nonempty");
+      else if (kind[0] == 'i')
+        VF_COUNT("range/inverted");
+      else
+        VF_COUNT("range/equal-component");
       auto const r = fg::make_pos_range_start_end(fg::min<ST, N>{to_pos<ST, N>(mn)}, fg::sup<ST, N>{to_pos<ST, N>(sp)});
       bool runaway = false;
       std::vector<P<N>> const got = walk<N>(r, want.size(), runaway);
-      std::string const what = "pos_range<" + inst<ST, N>() + ">(min=" + show(mn) + ",sup=" + show(sp) + ")";
-      std::string const key = e + "/" + kind;
-      if (judge_visit<N>(key, what, got, want, runaway, false))
+      auto const what = [&] { return "pos_range<" + inst<ST, N>() + ">(min=" + show(mn) + ",sup=" + show(sp) + ")"; };
+      auto const key = [&] { return e + "/" + kind; };
+      if (judge_visit_lazy<N>(got, want, runaway, false, key, what))
         count_carries<N>(got);
       if constexpr (sizeof(ST) >= sizeof(int)) // size() of narrower types does not compile (promotion in range_dim)
         if (!runaway && static_cast<unsigned long long>(r.size()) != got.size())
-          vf::violation(key + "/size", "mismatch",
-                        what + ".size() got=" + std::to_string(static_cast<unsigned long long>(r.size())) + " visited=" + std::to_string(got.size()) + " box=" + std::to_string(want.size()));
+          vf::violation(key() + "/size", "mismatch",
+                        what() + ".size() got=" + std::to_string(static_cast<unsigned long long>(r.size())) + " visited=" + std::to_string(got.size()) + " box=" + std::to_string(want.size()));
       if (from_vec<N>(r.min().get()) != mn || from_vec<N>(r.sup().get()) != sp)
-        surprise(what + " min()/sup() do not return the constructor arguments");
+        surprise(what() + " min()/sup() do not return the constructor arguments");
       observe_helpers<ST, N>(mn, sp, want);
     }
   }
@@ -506,7 +531,7 @@ void pos_range_whole_entry()
   if (!vf::entry_enabled(e))
     return;
   vf::set_entry(e);
-  for (P<N> const &s : box<N>(all<N>(0), all<N>(5)))
+  for (P<N> const &s : box<N>(all<N>(0), all<N>(E() + 1)))
   {
     if (!my_item())
       continue;
@@ -601,11 +626,11 @@ void object_entry()
     return;
   vf::set_entry(e);
   using G = fg::object<cell, N>;
-  for (P<N> const &s : box<N>(all<N>(0), all<N>(5)))
+  for (P<N> const &s : box<N>(all<N>(0), all<N>(E() + 1)))
   {
     if (!my_item())
       continue;
-    if (!vf::begin_case("size=%s ctor(function), ctor(value), at_optional over [-1,5]^%zu (mutable and const)", show(s).c_str(), N))
+    if (!vf::begin_case("size=%s ctor(function), ctor(value), at_optional over [-1,%lld]^%zu (mutable and const)", show(s).c_str(), E() + 1, N))
       continue;
     vf::sample_case(1);
     vf::note_distinct(hp(s, vf::hash_str(e)));
@@ -629,7 +654,7 @@ void object_entry()
     G const &cg = g;
     cell *const base = ps.empty() ? nullptr : &*g.begin();
     std::map<P<N>, std::size_t> const index = index_map<N>(ps);
-    for_box(all<N>(-1), all<N>(6), [&](P<N> const &p) {
+    for_box(all<N>(-1), all<N>(E() + 2), [&](P<N> const &p) {
       vf::operands(enc(p));
       vf::add_evals(2);
       bool const want = inside(p, all<N>(0), s);
@@ -688,14 +713,19 @@ void ref_range_one(
   using G = fg::object<cell, N>;
   std::vector<P<N>> const want = box<N>(mn, sp);
   char const *const kind = empty_kind(mn, sp);
-  vf::count(std::string("ref_range/") + kind);
+  if (kind[0] == 'n')
+    VF_COUNT("ref_range/nonempty");
+  else if (kind[0] == 'i')
+    VF_COUNT("ref_range/inverted");
+  else
+    VF_COUNT("ref_range/equal-component");
   fg::min<std::size_t, N> const lmin{to_pos<std::size_t, N>(mn)};
   fg::sup<std::size_t, N> const lsup{to_pos<std::size_t, N>(sp)};
   cell *const base = ps.empty() ? nullptr : &*g.begin();
   for (int c = 0; c < 2; ++c)
   {
-    std::string const key = e + (c ? "/const/" : "/mutable/") + kind;
-    std::string const what = std::string(c ? "pos_ref_crange" : "pos_ref_range") + "(size=" + show(s) + ",min=" + show(mn) + ",sup=" + show(sp) + ")";
+    auto const key = [&] { return e + (c ? "/const/" : "/mutable/") + kind; };
+    auto const what = [&] { return std::string(c ? "pos_ref_crange" : "pos_ref_range") + "(size=" + show(s) + ",min=" + show(mn) + ",sup=" + show(sp) + ")"; };
     std::vector<P<N>> got;
     bool runaway = false, bad_cell = false;
     auto visit = [&](auto const &range) {
@@ -717,28 +747,28 @@ void ref_range_one(
         if (a != base + f->second)
         {
           if (!bad_cell)
-            vf::violation(key + "/wrong-cell", "mismatch",
-                          what + " at pos " + show(p) + " refers to storage index " + std::to_string(a - base) + " want=" + std::to_string(f->second));
+            vf::violation(key() + "/wrong-cell", "mismatch",
+                          what() + " at pos " + show(p) + " refers to storage index " + std::to_string(a - base) + " want=" + std::to_string(f->second));
           bad_cell = true;
         }
         else if (a->code != code<N>(p))
         {
           if (!bad_cell)
-            vf::violation(key + "/wrong-value", "mismatch", what + " at pos " + show(p) + " got=" + show(*a));
+            vf::violation(key() + "/wrong-value", "mismatch", what() + " at pos " + show(p) + " got=" + show(*a));
           bad_cell = true;
         }
         if constexpr (!std::is_const_v<std::remove_reference_t<decltype(ref.value())>>)
           ref.value().tag = stamp;
       }
       if (!runaway && static_cast<unsigned long long>(range.size()) != got.size())
-        vf::violation(key + "/size", "mismatch",
-                      what + ".size() got=" + std::to_string(static_cast<unsigned long long>(range.size())) + " visited=" + std::to_string(got.size()));
+        vf::violation(key() + "/size", "mismatch",
+                      what() + ".size() got=" + std::to_string(static_cast<unsigned long long>(range.size())) + " visited=" + std::to_string(got.size()));
     };
     if (c == 0)
       visit(fg::make_pos_ref_range_start_end(g, lmin, lsup));
     else
       visit(fg::make_pos_ref_crange_start_end(static_cast<G const &>(g), lmin, lsup));
-    if (judge_visit<N>(key, what, got, want, runaway, false))
+    if (judge_visit_lazy<N>(got, want, runaway, false, key, what))
       count_carries<N>(got);
     if (c == 0)
     {
@@ -749,8 +779,8 @@ void ref_range_one(
         bool const in = inside(ps[k], mn, sp);
         if ((it->tag == stamp) != in)
         {
-          vf::violation(key + "/write-misplaced", "mismatch",
-                        what + " cell " + show(ps[k]) + (in ? " was not written" : " was written although outside the range"));
+          vf::violation(key() + "/write-misplaced", "mismatch",
+                        what() + " cell " + show(ps[k]) + (in ? " was not written" : " was written although outside the range"));
           break;
         }
       }
@@ -766,7 +796,7 @@ void pos_ref_range_entry()
     return;
   vf::set_entry(e);
   using G = fg::object<cell, N>;
-  for (P<N> const &s : box<N>(all<N>(0), all<N>(5)))
+  for (P<N> const &s : box<N>(all<N>(0), all<N>(E() + 1)))
   {
     std::vector<P<N>> const ps = box<N>(all<N>(0), s);
     std::map<P<N>, std::size_t> const index = index_map<N>(ps);
@@ -906,7 +936,7 @@ void clamp_entry()
         vf::violation("clamped_min/" + inst<S, N>() + "/value", "mismatch", "clamped_min(" + show(p) + ") got=" + show(got) + " want=" + show(w));
     }
   }
-  for (P<N> const &s : box<N>(all<N>(0), all<N>(5)))
+  for (P<N> const &s : box<N>(all<N>(0), all<N>(E() + 1)))
   {
     if (!my_item())
       continue;
@@ -961,6 +991,80 @@ void clamp_entry()
 // (min,sup) given as signed positions inside and partly outside the grid, brought into the grid with the
 // clamp helpers as the documentation shows, then iterated with a const pos ref range.
 template <std::size_t N>
+struct clamped_ctx
+{
+  std::string const &e;
+  fg::object<cell, N> const &g;
+  P<N> const &s;
+  std::map<P<N>, std::size_t> const &index;
+  cell const *base;
+};
+
+template <std::size_t N>
+void clamped_range_one(clamped_ctx<N> const &c, P<N> const &a, P<N> const &b)
+{
+  using G = fg::object<cell, N>;
+  P<N> const &s = c.s;
+  vf::operands(enc(a), enc(b));
+  P<N> mn, sp;
+  for (std::size_t i = 0; i < N; ++i)
+  {
+    mn[i] = a[i] < 0 ? 0 : a[i];
+    sp[i] = b[i] < 0 ? 0 : b[i] > s[i] ? s[i] : b[i];
+  }
+  auto const lmin = fg::clamped_min(to_pos<typename G::difference_type, N>(a));
+  auto const lsup = fg::clamped_sup_signed(to_pos<typename G::difference_type, N>(b), c.g.size());
+  bool clamp_ok = true;
+  if (from_vec<N>(lmin.get()) != mn)
+  {
+    vf::violation("clamped_min/" + inst<long, N>() + "/value", "mismatch", "clamped_min(" + show(a) + ") got=" + show(from_vec<N>(lmin.get())) + " want=" + show(mn));
+    clamp_ok = false;
+  }
+  if (from_vec<N>(lsup.get()) != sp)
+  {
+    vf::violation("clamped_sup_signed/" + inst<long, N>() + "/value", "mismatch", "clamped_sup_signed(" + show(b) + ", size=" + show(s) + ") got=" + show(from_vec<N>(lsup.get())) + " want=" + show(sp));
+    clamp_ok = false;
+  }
+  if (!clamp_ok)
+    return; // iterating a range that leaves the grid would be the harness's fault
+  std::vector<P<N>> const want = box<N>(mn, sp);
+  char const *const kind = empty_kind(mn, sp);
+  if (kind[0] == 'n')
+    VF_COUNT("clamped_range/nonempty");
+  else if (kind[0] == 'i')
+    VF_COUNT("clamped_range/inverted");
+  else
+    VF_COUNT("clamped_range/equal-component");
+  if (!inside(a, all<N>(0), s) || !inside(b, all<N>(0), plus1(s)))
+    VF_COUNT("clamped_range/partly-outside");
+  auto const key = [&] { return c.e + "/" + kind; };
+  auto const what = [&] {
+    return "pos_ref_crange(size=" + show(s) + ",clamped_min" + show(a) + "=" + show(mn) + ",clamped_sup_signed" + show(b) + "=" + show(sp) + ")";
+  };
+  auto const range = fg::make_pos_ref_crange_start_end(c.g, lmin, lsup);
+  std::vector<P<N>> got;
+  bool runaway = false;
+  auto const end = range.end();
+  for (auto it = range.begin(); it != end; ++it)
+  {
+    if (got.size() > want.size() + 600)
+    {
+      runaway = true;
+      break;
+    }
+    auto const ref = *it;
+    P<N> const p = from_vec<N>(ref.pos());
+    got.push_back(p);
+    auto const f = c.index.find(p);
+    if (f != c.index.end() && &ref.value() != c.base + f->second)
+      vf::violation(key() + "/wrong-cell", "mismatch", what() + " at pos " + show(p) + " refers to storage index " + std::to_string(&ref.value() - c.base));
+  }
+  judge_visit_lazy<N>(got, want, runaway, false, key, what);
+  if (!runaway && static_cast<unsigned long long>(range.size()) != got.size())
+    vf::violation(key() + "/size", "mismatch", what() + ".size() got=" + std::to_string(static_cast<unsigned long long>(range.size())) + " visited=" + std::to_string(got.size()));
+}
+
+template <std::size_t N>
 void clamped_range_entry()
 {
   std::string const e = "clamped_range/N=" + std::to_string(N);
@@ -968,95 +1072,52 @@ void clamped_range_entry()
     return;
   vf::set_entry(e);
   using G = fg::object<cell, N>;
-  std::vector<P<N>> const margin = box<N>(all<N>(-1), all<N>(6));
+  std::vector<P<N>> const margin = box<N>(all<N>(-1), all<N>(E() + 2));
+  // N<=2: all pairs of margin positions (also N=3 in the thorough tier); N=3 quick: a seeded sample per size
+  bool const exhaustive = N <= 2 || vf::thorough();
   std::uint64_t sidx = 0;
-  for (P<N> const &s : box<N>(all<N>(0), all<N>(5)))
+  for (P<N> const &s : box<N>(all<N>(0), all<N>(E() + 1)))
   {
     ++sidx;
-    if (!my_item())
-      continue;
-    // N<=2: all pairs of margin positions; N=3: a seeded sample
-    std::vector<std::pair<P<N>, P<N>>> pairs;
-    if (N <= 2)
-    {
-      for (P<N> const &a : margin)
-        for (P<N> const &b : margin)
-          pairs.emplace_back(a, b);
-    }
-    else
-    {
-      vf::rng r(vf::seed_for(e, sidx));
-      std::size_t const n = vf::tier<std::size_t>(150, 6000);
-      for (std::size_t i = 0; i < n; ++i)
-      {
-        P<N> const a = r.pick(margin);
-        pairs.emplace_back(a, r.pick(margin));
-      }
-    }
-    if (!vf::begin_case("size=%s %zu signed (min,sup) pairs from [-1,5]^%zu%s", show(s).c_str(), pairs.size(), N, N <= 2 ? " (all)" : " (seeded sample)"))
-      continue;
-    vf::sample_case(1);
-    vf::add_evals(pairs.size() - 1);
     G const g = make_grid<N>(s, tag_a);
     std::vector<P<N>> const ps = box<N>(all<N>(0), s);
     std::map<P<N>, std::size_t> const index = index_map<N>(ps);
-    cell const *const base = ps.empty() ? nullptr : &*g.begin();
-    std::uint64_t h = hp(s, vf::hash_str(e));
-    for (auto const &[a, b] : pairs)
+    clamped_ctx<N> const ctx{e, g, s, index, ps.empty() ? nullptr : &*g.begin()};
+    if (exhaustive)
     {
-      vf::operands(enc(a), enc(b));
-      h = hp(b, hp(a, h));
-      P<N> mn, sp;
-      for (std::size_t i = 0; i < N; ++i)
+      for (P<N> const &a : margin)
       {
-        mn[i] = a[i] < 0 ? 0 : a[i];
-        sp[i] = b[i] < 0 ? 0 : b[i] > s[i] ? s[i] : b[i];
+        if (!my_item())
+          continue;
+        if (!vf::begin_case("size=%s signed min=%s, signed sup=every point of [-1,%lld]^%zu", show(s).c_str(), show(a).c_str(), E() + 1, N))
+          continue;
+        vf::sample_case(1);
+        vf::add_evals(margin.size() - 1);
+        vf::note_distinct(hp(a, hp(s, vf::hash_str(e))));
+        for (P<N> const &b : margin)
+          clamped_range_one<N>(ctx, a, b);
       }
-      auto const lmin = fg::clamped_min(to_pos<typename G::difference_type, N>(a));
-      auto const lsup = fg::clamped_sup_signed(to_pos<typename G::difference_type, N>(b), g.size());
-      bool clamp_ok = true;
-      if (from_vec<N>(lmin.get()) != mn)
-      {
-        vf::violation("clamped_min/" + inst<long, N>() + "/value", "mismatch", "clamped_min(" + show(a) + ") got=" + show(from_vec<N>(lmin.get())) + " want=" + show(mn));
-        clamp_ok = false;
-      }
-      if (from_vec<N>(lsup.get()) != sp)
-      {
-        vf::violation("clamped_sup_signed/" + inst<long, N>() + "/value", "mismatch", "clamped_sup_signed(" + show(b) + ", size=" + show(s) + ") got=" + show(from_vec<N>(lsup.get())) + " want=" + show(sp));
-        clamp_ok = false;
-      }
-      if (!clamp_ok)
-        continue; // iterating a range that leaves the grid would be the harness's fault
-      std::vector<P<N>> const want = box<N>(mn, sp);
-      char const *const kind = empty_kind(mn, sp);
-      vf::count(std::string("clamped_range/") + kind);
-      if (!inside(a, all<N>(0), s) || !inside(b, all<N>(0), plus1(s)))
-        VF_COUNT("clamped_range/partly-outside");
-      std::string const key = e + "/" + kind;
-      std::string const what = "pos_ref_crange(size=" + show(s) + ",clamped_min" + show(a) + "=" + show(mn) + ",clamped_sup_signed" + show(b) + "=" + show(sp) + ")";
-      auto const range = fg::make_pos_ref_crange_start_end(g, lmin, lsup);
-      std::vector<P<N>> got;
-      bool runaway = false;
-      auto const end = range.end();
-      for (auto it = range.begin(); it != end; ++it)
-      {
-        if (got.size() > want.size() + 600)
-        {
-          runaway = true;
-          break;
-        }
-        auto const ref = *it;
-        P<N> const p = from_vec<N>(ref.pos());
-        got.push_back(p);
-        auto const f = index.find(p);
-        if (f != index.end() && &ref.value() != base + f->second)
-          vf::violation(key + "/wrong-cell", "mismatch", what + " at pos " + show(p) + " refers to storage index " + std::to_string(&ref.value() - base));
-      }
-      judge_visit<N>(key, what, got, want, runaway, false);
-      if (!runaway && static_cast<unsigned long long>(range.size()) != got.size())
-        vf::violation(key + "/size", "mismatch", what + ".size() got=" + std::to_string(static_cast<unsigned long long>(range.size())) + " visited=" + std::to_string(got.size()));
     }
-    vf::note_distinct(h);
+    else
+    {
+      if (!my_item())
+        continue;
+      vf::rng r(vf::seed_for(e, sidx));
+      std::size_t const n = 3000;
+      if (!vf::begin_case("size=%s %zu seeded signed (min,sup) pairs from [-1,%lld]^%zu rng=seed_for(entry,%llu)", show(s).c_str(), n, E() + 1, N, static_cast<unsigned long long>(sidx)))
+        continue;
+      vf::sample_case(1);
+      vf::add_evals(n - 1);
+      std::uint64_t h = hp(s, vf::hash_str(e));
+      for (std::size_t i = 0; i < n; ++i)
+      {
+        P<N> const a = r.pick(margin);
+        P<N> const b = r.pick(margin);
+        h = hp(b, hp(a, h));
+        clamped_range_one<N>(ctx, a, b);
+      }
+      vf::note_distinct(h);
+    }
   }
 }
 
@@ -1077,7 +1138,7 @@ void fill_map_apply_entry()
   using G = fg::object<cell, N>;
   using G64 = fg::object<std::uint64_t, N>;
   using GS = fg::object<std::string, N>;
-  std::vector<P<N>> const sizes = box<N>(all<N>(0), all<N>(5));
+  std::vector<P<N>> const sizes = box<N>(all<N>(0), all<N>(E() + 1));
   for (std::size_t si = 0; si < sizes.size(); ++si)
   {
     P<N> const &s = sizes[si];
@@ -1135,7 +1196,7 @@ void fill_map_apply_entry()
         {
           P<N> t = s;
           t[i] += d;
-          if (t[i] >= 0 && t[i] <= 4)
+          if (t[i] >= 0 && t[i] <= E())
             others.push_back(t);
         }
       {
@@ -1181,7 +1242,7 @@ void resize_entry()
   vf::set_entry(e);
   using G = fg::object<cell, N>;
   using GS = fg::object<std::string, N>;
-  std::vector<P<N>> const sizes = box<N>(all<N>(0), all<N>(5));
+  std::vector<P<N>> const sizes = box<N>(all<N>(0), all<N>(E() + 1));
   bool const sampled = N == 3 && !vf::thorough();
   for (std::size_t si = 0; si < sizes.size(); ++si)
   {
